@@ -522,11 +522,22 @@ Den(G, k, p, slow) == IF G[k].k = "union" THEN DenUnion(G, k, p, slow) ELSE DenP
 (* What an observed serialization outcome must satisfy.                    *)
 (*   res = "ok" with bytes, or res = "err".                                *)
 (***************************************************************************)
+\* Where Den is silent (`any`) one thing can still be said of a decimal on a fixed wider than 16 bytes: the unscaled value fits
+\* 16 bytes (i128 / the 96-bit mantissa), so the bytes in front of the last 16 are its sign extension - all 00 or all FF, agreeing
+\* with the sign bit of the 16-byte part.  (An Ok with FF FF .. 00 00 .. - a "negative zero" padded as negative - is not a number
+\* anywhere near the presented one.  Seeded twice, independently: C02-r2-3, C02-r3-2.)
+AnyWellFormed(G, bytes) ==
+    LET n == G[1] IN
+    IF Eff(n) = "decimal_fixed" /\ n.size > 16
+    THEN /\ Len(bytes) = n.size
+         /\ LET k == n.size - 16  fill == IF bytes[k + 1] >= 128 THEN 255 ELSE 0 IN \A i \in 1..k : bytes[i] = fill
+    ELSE TRUE
+
 SerAllowed(G, p, slow, res, bytes) ==
     LET d == Den(G, 1, p, slow) IN
     CASE res = "err" -> d.m # "ok"
       [] res = "ok"  -> /\ d.m # "err"
-                        /\ \/ d.any
+                        /\ \/ (d.any /\ AnyWellFormed(G, bytes))
                            \/ \E v \in d.vs : IsEncodingOf(G, bytes, v)
       [] OTHER -> FALSE
 
